@@ -367,7 +367,7 @@ class Run:
         cov = {
             "states": max(self.states, 0), "transitions": max(self.transitions, 0),
             "traces_validated_against_impl": self.executions + self.traces,
-            "samples": self.samples[:6] if self.samples else [],
+            "samples": self.samples[:6] if self.samples else [{"note": "no vector or trace was produced before the run ended", "stages": self.stages[:2]}],
             "evaluations": self.executions + self.derived + self.trace_events,
             "distinct_nontrivial": len(self.nontrivial),
             "rule": rule,
